@@ -22,11 +22,13 @@ SchemaP == SchemaF(<<
     <<"sub", SubP>>,
     <<"vault", VaultT>>,
     <<"items", ListF(ItemP)>>,
+    \* a whole list of configurations marked sensitive: masked as one value, not item by item
+    <<"sitems", With(ListF(ItemP), [sensitive |-> TRUE])>>,
     <<"virt", VirtualF>>,
     <<"svirt", VirtualF @@ [sensitive |-> TRUE]>> >>)
 
-MCKeyNames == {"dflt", "dl", "name", "pw", "hash", "blob", "bl", "sl", "dd", "api", "sub", "tok", "port", "vault", "sec", "inner", "n", "items", "u", "virt", "svirt"}
-MCKeyChars == [k \in MCKeyNames |-> CASE k = "dflt" -> <<"d", "f", "l", "t">> [] k = "dl" -> <<"d", "l">> [] k = "name" -> <<"n", "a", "m", "e">> [] k = "pw" -> <<"p", "w">> [] k = "hash" -> <<"h", "a", "s", "h">> [] k = "blob" -> <<"b", "l", "o", "b">> [] k = "bl" -> <<"b", "l">> [] k = "sl" -> <<"s", "l">> [] k = "dd" -> <<"d", "d">> [] k = "api" -> <<"a", "p", "i">> [] k = "sub" -> <<"s", "u", "b">> [] k = "tok" -> <<"t", "o", "k">> [] k = "port" -> <<"p", "o", "r", "t">> [] k = "vault" -> <<"v", "a", "u", "l", "t">> [] k = "sec" -> <<"s", "e", "c">> [] k = "inner" -> <<"i", "n", "n", "e", "r">> [] k = "n" -> <<"n">> [] k = "items" -> <<"i", "t", "e", "m", "s">> [] k = "u" -> <<"u">> [] k = "virt" -> <<"v", "i", "r", "t">> [] k = "svirt" -> <<"s", "v", "i", "r", "t">>]
+MCKeyNames == {"sitems", "dflt", "dl", "name", "pw", "hash", "blob", "bl", "sl", "dd", "api", "sub", "tok", "port", "vault", "sec", "inner", "n", "items", "u", "virt", "svirt"}
+MCKeyChars == [k \in MCKeyNames |-> CASE k = "sitems" -> <<"s", "i", "t", "e", "m", "s">> [] k = "dflt" -> <<"d", "f", "l", "t">> [] k = "dl" -> <<"d", "l">> [] k = "name" -> <<"n", "a", "m", "e">> [] k = "pw" -> <<"p", "w">> [] k = "hash" -> <<"h", "a", "s", "h">> [] k = "blob" -> <<"b", "l", "o", "b">> [] k = "bl" -> <<"b", "l">> [] k = "sl" -> <<"s", "l">> [] k = "dd" -> <<"d", "d">> [] k = "api" -> <<"a", "p", "i">> [] k = "sub" -> <<"s", "u", "b">> [] k = "tok" -> <<"t", "o", "k">> [] k = "port" -> <<"p", "o", "r", "t">> [] k = "vault" -> <<"v", "a", "u", "l", "t">> [] k = "sec" -> <<"s", "e", "c">> [] k = "inner" -> <<"i", "n", "n", "e", "r">> [] k = "n" -> <<"n">> [] k = "items" -> <<"i", "t", "e", "m", "s">> [] k = "u" -> <<"u">> [] k = "virt" -> <<"v", "i", "r", "t">> [] k = "svirt" -> <<"s", "v", "i", "r", "t">>]
 MCEnviron == [x \in {} |-> <<>>]
 
 \* a ready-made instance of the vault type (it names its own key file) with secrets already set
@@ -37,10 +39,11 @@ VaultObj == LET d == DefaultCfg(VaultF, <<"vault">>).cfg
 LongSecret == StrV(<<"0", "1", "2", "3", "4", "5", "6", "7", "8", "9", "a", "b", "c", "d", "e", "f", "g", "h", "i", "j",
                      "k", "l", "m", "n", "o", "p", "q", "r", "s", "t", "u", "v", "w", "x", "y", "z", "A", "B", "C", "D", "#", "!">>)
 MCSetCands ==
-    [pk \in {<< <<>>, "dflt">>, << <<>>, "dl">>, << <<>>, "name">>, << <<>>, "pw">>, << <<>>, "hash">>, << <<>>, "blob">>, << <<>>, "bl">>, << <<>>, "sl">>,
+    [pk \in {<< <<>>, "sitems">>, << <<>>, "dflt">>, << <<>>, "dl">>, << <<>>, "name">>, << <<>>, "pw">>, << <<>>, "hash">>, << <<>>, "blob">>, << <<>>, "bl">>, << <<>>, "sl">>,
              << <<>>, "dd">>, << <<>>, "api">>, << <<"sub">>, "tok">>, << <<>>, "vault">>, << <<"vault">>, "sec">>,
              << <<"vault", "inner">>, "tok">>, << <<>>, "items">>} |->
-        CASE pk[2] = "dflt"  -> {D1(<<"a">>, IntV(5)), DictV(<<>>)}
+        CASE pk[2] = "sitems" -> {ListV(<<D2(<<"u">>, StrV(<<"s", "a", "m">>), <<"p", "w">>, StrV(<<"s", "i", "t", "e", "m", "p", "w", "#", "7">>))>>)}
+          [] pk[2] = "dflt"  -> {D1(<<"a">>, IntV(5)), DictV(<<>>)}
           [] pk[2] = "dl"    -> {ListV(<<>>), ListV(<<IntV(2)>>)}
           [] pk[2] = "name"  -> {StrV(<<"b", "o", "b">>), StrV(<<" ", "p", "a", "d", " ", "<", "&", ">", "\t", "\n">>)}
           [] pk[2] = "pw"    -> {StrV(<<"s", "3", "c", "r", "e", "t", "!", "p", "w">>), StrV(<<>>), LongSecret}
